@@ -77,6 +77,12 @@ HasEmptyStr(b) ==
      \/ S[p].type = "stringArray" /\ U.empty \in AsSet(b[k].doc[f].ix[p])
 KFEmptyKey(b) == "emptykey" \in KnownFindings /\ mem = 0 /\ HasEmptyStr(b)
 Note(cond, name) == kf' = IF cond THEN kf \cup {name} ELSE kf
+\* Known finding C09-c (the pinned cache has no version check): a search whose snapshot is older than the newest
+\* commit, or that runs while a batch is open, creates or attaches the SHARED cache object; the object then holds
+\* content of another version and stays in the manager.  A later write batch that attaches it can fail although
+\* it is valid ("failed to get node for neighbours: not found").  Signature: a valid batch refused without an
+\* injected fault in a forced-schedule behaviour in which the driver saw such an attach (E.risk = 1).
+KFStale == "C09-c" \in KnownFindings /\ E.risk = 1 /\ mem = 0 /\ csz # 0
 
 \* a write that reported failure: state unchanged; the logged projection
 \* (read from storage after the failure) must still be the old one
@@ -93,9 +99,9 @@ TInsert ==
           /\ Sh!InsertBatch(E.pts, PN(E.P), PF(E.P), E.P.next)
           /\ count' = E.P.count
           /\ UNCHANGED kf
-     ELSE /\ (fault \/ ~Sh!InsertValid(E.pts) \/ KFEmptyKey(E.pts))
+     ELSE /\ (fault \/ ~Sh!InsertValid(E.pts) \/ KFEmptyKey(E.pts) \/ KFStale)
           /\ Unchanged(E.P)
-          /\ Note(~fault /\ Sh!InsertValid(E.pts), "emptykey")
+          /\ Note(~fault /\ Sh!InsertValid(E.pts), IF KFEmptyKey(E.pts) THEN "emptykey" ELSE "C09-c")
   /\ VersPush
 
 \* Several insert requests issued at the same time (the storage engine admits one writer at a time): the outcome
@@ -158,9 +164,9 @@ TUpdate ==
           /\ PNodesFunctional(E.P)
           /\ PN(E.P) = nodeOf /\ PF(E.P) = free /\ E.P.next = next /\ E.P.count = count
           /\ UNCHANGED kf
-     ELSE /\ (fault \/ Sh!UpdOversize(pts, E.pts, lim) \/ KFEmptyKey(E.pts))
+     ELSE /\ (fault \/ Sh!UpdOversize(pts, E.pts, lim) \/ KFEmptyKey(E.pts) \/ KFStale)
           /\ Unchanged(E.P)
-          /\ Note(~fault /\ ~Sh!UpdOversize(pts, E.pts, lim), "emptykey")
+          /\ Note(~fault /\ ~Sh!UpdOversize(pts, E.pts, lim), IF KFEmptyKey(E.pts) THEN "emptykey" ELSE "C09-c")
   /\ VersPush
 
 TDelete ==
@@ -173,9 +179,9 @@ TDelete ==
           /\ Len(E.deleted) = Cardinality(AsSet(E.deleted))
           /\ AsSet(E.deleted) = AsSet(E.ids) \cap DOMAIN pts
           /\ UNCHANGED kf
-     ELSE /\ fault
+     ELSE /\ (fault \/ KFStale)
           /\ Unchanged(E.P)
-          /\ UNCHANGED kf
+          /\ Note(~fault, "C09-c")
   /\ VersPush
 
 ---------------------------------------------------------------------------
